@@ -62,6 +62,22 @@ def run_store(ctx: Ctx, pid: str, seed_offset=0):
     replay_store(ctx, gen + sim, pid)
     # real cache pressure: 1 MB cache, ~450 kB trajectories => capacity 2 items (spec Cap = 2)
     replay_store(ctx, simcap, pid, big=True, cache_mb=1)
+    # the smallest cache that works: its capacity in bytes EQUALS the size of the larger payload (spec Cap = 1) - one
+    # trajectory fits exactly, nothing is oversized
+    if pid in ('C07', 'C10'):
+        from .store_replay import make_payload
+
+        simcap1 = tlc.check(
+            ctx, 'store/StoreGen', 'store/Sim_Store.cfg', workers=1, simulate=f'num={60 if ctx.quick else 600}', depth=18, seed=ctx.seed + 2000 + seed_offset,
+            sub={'Cap = 99': 'Cap = 1', 'MaxItems = 5': 'MaxItems = 3'},
+        )['emitted']  # fmt: skip
+        simcap1 = [b for b in simcap1 if not any(s['ev']['op'] == 'addbad' and s['ev']['arg'] == 'oversized' for s in b['h'])]
+        groups = {}
+        for b in simcap1:
+            ps = [s['ev']['arg'][0] for s in b['h'] if s['ev']['op'] == 'add' and isinstance(s['ev']['arg'], list)] + [it['p'] for it in b['added'] if isinstance(it.get('p'), int)]
+            groups.setdefault((b.get('flavour') == 'extras', max(ps + [2])), []).append(b)
+        for (extras, maxp), bs in sorted(groups.items()):
+            replay_store(ctx, bs, pid, big=False, cache_mb=make_payload(maxp, 0, extras=extras).nbytes / 2**20)
     validate_repo_store_traces(ctx, pid)
 
 
